@@ -497,6 +497,9 @@ func (e *Engine) lemmaCall(st *State, env *Env, l *Lemma, s LemmaStep, idx int) 
 		cenv.vars[ld.Name] = e.evalExpr(cenv, ld.E)
 	}
 	for _, en := range fc.Ensures {
+		if usesCallLog(en.E) {
+			continue
+		}
 		st.assume(e.evalBool(cenv, en.E))
 	}
 	for i, rn := range s.Rets {
